@@ -266,6 +266,13 @@ class Stacker(Transformer):
             if self.dims_mapping[sample_name][0] != sample_name:
                 X = X.rename({sample_name: self.dims_mapping[sample_name][0]})
 
+        # to_unstacked_dataset squeezes every dimension of length one (e.g. a single
+        # sample); remember them to restore them afterwards
+        size_one = {
+            d: X.coords[d].values
+            for d in X.dims
+            if d != feature_name and X.sizes[d] == 1 and d in X.coords
+        }
         ds: DataSet = X.to_unstacked_dataset(feature_name, "variable")
         # Unstack only what the stacker stacked: a MultiIndex of the user's own sample
         # dimension (as carried by scores passed to inverse_transform) must stay intact
@@ -275,6 +282,9 @@ class Stacker(Transformer):
             if d in ds.dims and isinstance(ds.indexes.get(d), pd.MultiIndex)
         ]
         ds = ds.unstack(stacked_dims)
+        for d, values in size_one.items():
+            if d not in ds.dims:
+                ds = ds.drop_vars(d, errors="ignore").expand_dims({d: values})
         ds = self._reorder_dims(ds)
         return ds
 
